@@ -39,7 +39,8 @@ RULE = ("per discovered class supporting scale_strength: constructor arguments d
         "(1..4 workers). A case is distinct by its full spec; non-trivial = the subject has at least one scalable range")
 ASSUMPTIONS = [
     "the harness generator reaches nested transforms through the public set_rng of every transform object found in instance dictionaries; whether set_rng is forwarded is C07's concern",
-    "float bounds that re-derive arithmetic are compared with relative tolerance 1e-9 (restore/collapse/monotone) and 1e-12 (no compounding, scheduled differential); gate thresholds are recovered to 2^-44",
+    "float bounds that re-derive arithmetic are compared with relative tolerance 1e-9 (restore/collapse/monotone) and 1e-12 (no compounding, scheduled differential); gate thresholds are bisected down to adjacent doubles",
+    "a reported ctx parameter equal to -1 is the library's 'not sampled' marker (populate-on-skip, `value or -1`), never a legal parameter value; such entries are not used in the monotone clause",
     "identity at strength 0: exact for PIL / additive noise / solarize / grayscale / threshold, 1e-5 for float tensors through colour jitter and rotation; a PIL hue shift of 0 is compared with torchvision's own HSV round trip; workloads lie strictly inside (0,1) (float solarize at threshold 1.0 and thresholding at 0 are identities there)",
     "KDRandomRotation is only scaled when built with equal lower and upper bound (its own assertion); symmetric ranges are driven as refusal class 'rotation-unequal-bounds'",
     "KDRandAugment has no identity as a whole (posterize/auto_contrast/equalize/invert); only its magnitude-driven operations documented as identity at magnitude 0 are checked, selected by answering its public op choice",
@@ -138,6 +139,8 @@ def _gen_single(rng, recipes, name):
         spec["params"]["degrees"] = abs(spec["params"]["degrees"][0]) + 1.0   # symmetric range (-d, d): refused by the transform's own guard
         spec["refusal"] = "rotation-unequal-bounds"
     spec.update(_scaling_fields(rng))
+    if spec["params"].get("p") == 0 and name != "KDRandomGrayscale":
+        spec["_trivial"] = True    # never applied: the inner ranges are not observable
     return spec
 
 
@@ -189,11 +192,11 @@ def gen_cases(run):
     rng, recipes = run.rng, _ST["recipes"]
     singles = [n for n, r in recipes.items() if not isinstance(r, (P.ComposeRecipe, P.CommonRecipe))]
     commons = [n for n, r in recipes.items() if isinstance(r, P.CommonRecipe)]
-    n_single = run.n(6 * max(1, len(singles)), 170 * max(1, len(singles)))
+    n_single = run.n(6 * max(1, len(singles)), 130 * max(1, len(singles)))
     n_mag = run.n(8, 400)
-    n_compose = run.n(24, 1100)
+    n_compose = run.n(24, 800)
     n_common = run.n(len(commons), 30 * max(1, len(commons)))
-    n_sim = run.n(60, 3200)
+    n_sim = run.n(60, 2400)
     n_loader = run.n(5, 64)
     plan = []
     for i in range(n_single):
@@ -218,6 +221,8 @@ def gen_cases(run):
         elif kind == "common" and name is not None:
             spec = {"kind": "common", "cls": name, "params": recipes[name].gen(rng, "pil"), "input": _input(rng, "pil", big=True)}
             spec.update(_scaling_fields(rng))
+            if name in ("ImagenetMinaugTransform", "ImagenetNoaugTransform"):
+                spec["_trivial"] = True    # presets without a scalable member: scaling is a no-op
             yield spec
         elif kind == "sched_sim" and singles:
             yield _gen_sched(rng, recipes, loader=False)
@@ -685,9 +690,13 @@ def _run_sched_loader(run, spec):
     for b in range(n_full):
         if ref.obs(ref_value(b, span), "hi") is None:
             return         # the wrapped transform itself fails at this strength (its own cases report that)
-    ok, batches = call_real(run, lambda: S.run_loader(stack, B, W, S.LoaderWorkerInit(kwargs, _hook_factory(spec)), epochs=epochs),
-                            crash_key="scheduled-loader-crash", what=where)
-    if not ok:
+    try:
+        batches = S.run_loader(stack, B, W, S.LoaderWorkerInit(kwargs, _hook_factory(spec)), epochs=epochs)
+    except Exception as e:
+        if "Caught " in str(e):      # an exception raised by the code running in a worker, re-raised by torch
+            run.violation(f"scheduled-loader-crash:{type(e).__name__}", f"{where}: {type(e).__name__}: {str(e)[-1200:]}")
+        else:                         # worker start-up / infrastructure problem: not an observation of the repository
+            run.count("loader_infrastructure_failures")
         return
     run.cover("sched_loader", spec["wrap"], W, min(B, 3), spec["init"], spec["schedule"]["type"])
     run.count("loader_runs")
